@@ -37,8 +37,9 @@ def run(ctx):
     ctx.tlc("CompileArtifacts", "CompileArtifacts_resave.cfg", workers=2, expect_violation=True)
     r = ctx.tlc("CompileArtifacts", "CompileArtifacts_emit.cfg", workers=1)
     step = 1 if thorough else 7
-    rr = ctx.run_driver("artifacts", {"cases": os.path.join(r["dir"], "artifact_cases.json"), "from": ctx.seed % step, "step": step}, tag="artifacts", timeout=1800)
-    ctx.absorb_beyond(rr, "CompileArtifacts")
+    for drvname, label in (("artifacts", "CompileArtifacts (Groth16 files)"), ("artifacts_plonk", "CompileArtifacts (Plonk files)")):
+        rr = ctx.run_driver(drvname, {"cases": os.path.join(r["dir"], "artifact_cases.json"), "from": ctx.seed % step, "step": step}, tag=drvname, timeout=1800)
+        ctx.absorb_beyond(rr, label)
 
 
 def replay(ctx, rec):
